@@ -120,7 +120,16 @@ ErrorDiags(p) == {m \in Range(p.methods) : IsApi(m) /\ (~Linked(p, m) \/ (p.cfg.
 SpecBuildable(p) == SchemesDeclared(p)
 \* the built document does not validate when a documented path does not begin with a slash (the concatenation of an empty or
 \* slash-less controller prefix and a slash-less method route): the command then fails and writes nothing
+\* two documented paths that differ only in the NAME of a placeholder are one path template to OpenAPI: the document does not validate
+RECURSIVE AnonFrom(_, _, _)
+AnonFrom(s, i, inside) == IF i > Len(s) THEN ""
+                          ELSE IF Ch(s, i) = "{" THEN "{" \o AnonFrom(s, i + 1, TRUE)
+                          ELSE IF Ch(s, i) = "}" THEN "}" \o AnonFrom(s, i + 1, FALSE)
+                          ELSE IF inside THEN AnonFrom(s, i + 1, TRUE) ELSE Ch(s, i) \o AnonFrom(s, i + 1, FALSE)
+Anonymous(path) == AnonFrom(path, 1, FALSE)            \* "/a/{id}/b" -> "/a/{}/b"
+SamePathShape(a, b) == Anonymous(a) = Anonymous(b)
 SpecValidatable(p) == /\ \A o \in DocumentedOps(p) : Len(o.path) > 0 /\ Ch(o.path, 1) = "/"
+                      /\ \A o1, o2 \in DocumentedOps(p) : (o1.path # o2.path /\ Ch(o1.path, 1) = "/" /\ Ch(o2.path, 1) = "/") => ~SamePathShape(o1.path, o2.path)
                       /\ \A m \in Range(p.methods) : (IsApi(m) /\ ~m.hidden) => PathParamsMatch(p, m)     \* (implied by WellLinked; not by the as-coded variant)
 \* as coded, some malformed annotation properties surface only while the metadata is reduced (Project!LateAliasError)
 ReduceFails(p) == AsCoded(p) /\ \E m \in Range(p.methods) : IsApi(m) /\ LateAliasError(m)
